@@ -18,6 +18,11 @@
 //! Result line: `T:<res> B:<res>` where <res> = canonical struct value `a=1;b=none;e=[1.2]` or
 //! `err:duplicate:<field>` / `err:missing:<field>` / `err:invalidtype` / `err:other`.
 //!
+//! Known findings (recorded in known_findings.txt, exact oracle kinds): `unknown-int-key-binary`
+//! (an unknown key written as an I32 token in binary is an invalid-type error, not ignored) and
+//! `unknown-digit-key-token-struct` (a token-attribute struct read from text rejects an unknown
+//! all-digit key); every other divergence of the unknown-ignored oracle is `unknown-not-ignored`.
+//!
 //! L3 oracles (implementation only): all text paths agree; all binary paths agree; without `#`
 //! and numeric keys text == binary; an independent reference reading of the property
 //! (duplicated = occurrences in document order, take_last = last, plain twice = duplicate error,
@@ -563,17 +568,29 @@ pub fn exec(w: &[&str], obs: &mut Obs) -> Option<String> {
                 }
             }
             // unknown keys (answered by no field of any schema) must be ignored, whatever their form.
-            // Two key forms never reach `visit_str`/`visit_u16` and make the generated visitor answer
-            // `invalid type` instead (see the final report / DESIGN: numeric key + token struct in
-            // text, I32 key in binary); with STRICT_UNKNOWN_KEYS they are held to the property too.
+            // Two shapes are RECORDED known findings and get their own exact oracle kinds: an unknown
+            // key written as an I32 token in binary (`visit_i32`), and an unknown all-digit key of a
+            // token-attribute struct read from TEXT (`deserialize_u16` -> `visit_u64`); the generated
+            // field visitor implements neither.  A divergence is attributed to one of them only if
+            // removing just the keys of that shape already restores the result; anything else is
+            // `unknown-not-ignored`.
             {
-                let quirk = |it: &Item| !STRICT_UNKNOWN_KEYS && it.key.bytes().all(|c| c.is_ascii_digit()) && (*id == "tok" || it.as_i32);
-                let stripped: Vec<Item> = p.iter().filter(|it| !is_unknown_key(&it.key) || quirk(it)).cloned().collect();
+                let all_digits = |it: &Item| it.key.bytes().all(|c| c.is_ascii_digit());
+                let stripped: Vec<Item> = p.iter().filter(|it| !is_unknown_key(&it.key)).cloned().collect();
                 if stripped.len() != p.len() {
                     let mut o2 = Obs::default();
                     if let Some((t2, b2)) = run_schema(id, &stripped, &case, &mut o2) {
-                        if t2 != t || b2 != b {
-                            obs.violation("unknown-not-ignored", &case, &format!("with unknown fields T:{} B:{}, without T:{} B:{}", t, b, t2, b2));
+                        if b2 != b {
+                            let q: Vec<Item> = p.iter().filter(|it| !(it.as_i32 && is_unknown_key(&it.key))).cloned().collect();
+                            let explained = q.len() != p.len() && run_schema(id, &q, &case, &mut o2).map(|r| r.1 == b2).unwrap_or(false);
+                            let kind = if explained { "unknown-int-key-binary" } else { "unknown-not-ignored" };
+                            obs.violation(kind, &case, &format!("binary with unknown fields {}, without {}", b, b2));
+                        }
+                        if t2 != t {
+                            let q: Vec<Item> = p.iter().filter(|it| !(all_digits(it) && is_unknown_key(&it.key))).cloned().collect();
+                            let explained = *id == "tok" && q.len() != p.len() && run_schema(id, &q, &case, &mut o2).map(|r| r.0 == t2).unwrap_or(false);
+                            let kind = if explained { "unknown-digit-key-token-struct" } else { "unknown-not-ignored" };
+                            obs.violation(kind, &case, &format!("text with unknown fields {}, without {}", t, t2));
                         }
                     }
                 }
@@ -596,10 +613,6 @@ pub fn exec(w: &[&str], obs: &mut Obs) -> Option<String> {
         _ => None,
     }
 }
-
-/// hold numeric keys that reach the field visitor as integers to "unknown fields are ignored" too
-/// (fires on the current /repo: `derive tok a=1,bee=2,123=5`, `derive basic a=1,f=2,%123=5`)
-const STRICT_UNKNOWN_KEYS: bool = false;
 
 fn is_unknown_key(k: &str) -> bool {
     matches!(k, "zz" | "yy" | "k1" | "k2" | "u2") || k.bytes().all(|c| c.is_ascii_digit())
@@ -625,7 +638,7 @@ fn unknown_item(rng: &mut Rng, numeric_ok: bool, n: i32) -> Item {
         _ => Val::Obj(vec![("zz".into(), Val::Int(n))]),
     };
     let numeric = key.bytes().all(|c| c.is_ascii_digit());
-    Item { as_i32: numeric && rng.chance(1, 3), as_id: !numeric && rng.chance(1, 3), key, val }
+    Item { as_i32: false, as_id: !numeric && rng.chance(1, 3), key, val }
 }
 
 fn known_val(id: &str, key: &str, rng: &mut Rng, n: i32) -> Val {
@@ -770,6 +783,34 @@ pub fn gen(g: &mut Gen) {
         }
         g.count(&format!("random-{}", id));
     }
+    // 3b. the two recorded known-finding shapes, a few dozen cases (kinds `unknown-int-key-binary`,
+    // `unknown-digit-key-token-struct`): an unknown numeric key as an I32 token in binary for every
+    // schema, and an unknown all-digit key in a token struct
+    for (k, id) in ["basic", "aliased", "tok", "nested", "with"].iter().enumerate() {
+        for j in 0..6 {
+            let keys = schema_keys(id);
+            let mut p: Vec<Item> = vec![];
+            for (n, key) in keys.iter().take(4).enumerate() {
+                let val = known_val(id, key, &mut g.rng, n as i32 + 1);
+                p.push(Item { as_i32: false, as_id: false, key: key.to_string(), val });
+            }
+            let pos = g.rng.below(p.len() + 1);
+            p.insert(pos, Item { as_i32: true, as_id: false, key: format!("{}", 100 + 10 * k + j), val: if j % 2 == 0 { Val::Int(7) } else { Val::Obj(vec![("a".into(), Val::Int(1))]) } });
+            emit(g, id, &p);
+        }
+    }
+    for j in 0..24 {
+        let mut p: Vec<Item> = vec![];
+        for (n, key) in ["a", "e", "f", "bee", "c"].iter().enumerate() {
+            if g.rng.chance(4, 5) {
+                p.push(Item { as_i32: false, as_id: g.rng.chance(1, 2) && *key != "bee", key: key.to_string(), val: Val::Int(n as i32 + 1) });
+            }
+        }
+        let pos = g.rng.below(p.len() + 1);
+        p.insert(pos, Item { as_i32: false, as_id: false, key: format!("{}", 200 + j), val: Val::Int(9) });
+        emit(g, "tok", &p);
+    }
+    g.count("known-finding-shapes");
     // 4. probes
     for s in [
         "derive tok a=1,bee=2,123=5",
